@@ -1,0 +1,96 @@
+//go:build verif
+
+// Validity (C02) contracts for the govc verifier (see /verif/DESIGN.md §6 C02). Comment-only.
+// The well-formedness predicate is written from the BPv7 structural rules named in the property statement.
+
+package bpv7
+
+// Validity of an endpoint type / an extension block value is a pure function of the dynamic value (assumed for the
+// interface, proved per implementor below).
+// govc:iface EndpointType.CheckValid
+//@ assigns nothing
+//@ ensures (result == nil) == uf("etValid", bool, self)
+
+// govc:iface ExtensionBlock.CheckValid
+//@ assigns nothing
+//@ ensures (result == nil) == uf("extValid", bool, self)
+
+// govc:spec eidOK(e EndpointID) bool = e.EndpointType != nil && uf("etValid", bool, e.EndpointType)
+
+// govc:func (EndpointID).CheckValid property C02
+//@ assigns nothing
+//@ ensures (result == nil) == eidOK(eid)
+
+// ipn endpoints: node and service number 0 are invalid (RFC 9171 4.2.5.1.2 as implemented: both >= 1)
+// govc:func (IpnEndpoint).CheckValid property C02 C17
+//@ assigns nothing
+//@ ensures (result == nil) == (e.Node >= 1 && e.Service >= 1)
+
+// govc:func (*HopCountBlock).CheckValid property C02
+//@ assigns nothing
+//@ ensures (result == nil) == (hcb.Count <= hcb.Limit)
+
+// Primary block: version 7; no fragment+must-not-fragment; administrative record or anonymous source without status
+// report requests; anonymous source only with must-not-fragment; three valid endpoint IDs.
+// govc:spec flagsOK(f uint64) bool = !((f & 0x01) != 0 && (f & 0x04) != 0) && ((f & 0x02) != 0 ==> (f & 0x074000) == 0)
+// govc:spec pbOK(pb PrimaryBlock) bool = pb.Version == 7 && flagsOK(uint64(pb.BundleControlFlags)) && eidOK(pb.Destination) && eidOK(pb.SourceNode) && eidOK(pb.ReportTo) && (pb.SourceNode == DtnNone() ==> (uint64(pb.BundleControlFlags) & 0x04) != 0 && (uint64(pb.BundleControlFlags) & 0x074000) == 0)
+
+// govc:func (PrimaryBlock).CheckValid property C02
+//@ assigns nothing
+//@ ensures errs == nil ==> pbOK(pb)
+
+// Canonical block: valid block-specific data; a payload block (type 1) is numbered 1.
+// govc:spec cbOK(cb CanonicalBlock) bool = cb.Value != nil && uf("extValid", bool, cb.Value) && (cb.Value.BlockTypeCode() == 1 ==> cb.BlockNumber == 1)
+
+// govc:func (CanonicalBlock).CheckValid property C02
+//@ requires cb.Value != nil
+//@ assigns nothing
+//@ ensures errs == nil ==> cbOK(cb)
+
+// govc:func (CreationTimestamp).IsZeroTime property C02 C05
+//@ assigns nothing
+//@ ensures result == (ct[0] == 0)
+
+// Input well-formedness of in-memory bundles: block values are non-nil and a block whose type code is registered with
+// the extension block manager has the registered Go type (true for parsed bundles and for blocks made by the constructors).
+// govc:spec blocksNonNil(b Bundle) bool = forall j int :: 0 <= j && j < len(b.CanonicalBlocks) ==> b.CanonicalBlocks[j].Value != nil && (b.CanonicalBlocks[j].Value.BlockTypeCode() == 7 ==> is(b.CanonicalBlocks[j].Value, *BundleAgeBlock)) && (b.CanonicalBlocks[j].Value.BlockTypeCode() == 1 ==> is(b.CanonicalBlocks[j].Value, *PayloadBlock)) && (b.CanonicalBlocks[j].Value.BlockTypeCode() == 10 ==> is(b.CanonicalBlocks[j].Value, *HopCountBlock)) && (b.CanonicalBlocks[j].Value.BlockTypeCode() == 6 ==> is(b.CanonicalBlocks[j].Value, *PreviousNodeBlock))
+
+// govc:func (*Bundle).ExtensionBlock property C02 C06
+//@ opt inline true
+//@ requires blocksNonNil(*b)
+//@ assigns nothing
+//@ ensures result1 == nil ==> result0 != nil
+//@ ensures result1 != nil ==> result0 == nil && forall j int :: 0 <= j && j < len(b.CanonicalBlocks) ==> b.CanonicalBlocks[j].Value.BlockTypeCode() != blockType
+//@ loop 0 invariant 0 <= i && i <= len(b.CanonicalBlocks) && forall j int :: 0 <= j && j < i ==> b.CanonicalBlocks[j].Value.BlockTypeCode() != blockType
+//@ loop 0 decreases len(b.CanonicalBlocks) - i
+
+// govc:func (Bundle).IsLifetimeExceeded property C02 C06
+//@ requires blocksNonNil(b)
+//@ assigns nothing
+//@ ensures b.PrimaryBlock.CreationTimestamp[0] == 0 && (forall j int :: 0 <= j && j < len(b.CanonicalBlocks) ==> b.CanonicalBlocks[j].Value.BlockTypeCode() != 7) ==> result
+
+// Bundle (BPv7 4.2 / 4.3): at least one canonical block; unique block numbers; at most one block per type; the
+// payload block last; every block valid; administrative records and anonymous bundles carry no block that requests a
+// status report; a zero creation time only with a bundle age block; lifetime not exceeded.
+// govc:func (Bundle).CheckValid property C02
+//@ requires blocksNonNil(b)
+//@ ensures errs == nil ==> len(b.CanonicalBlocks) >= 1
+//@ ensures errs == nil ==> pbOK(b.PrimaryBlock)
+//@ ensures errs == nil ==> forall j int :: 0 <= j && j < len(b.CanonicalBlocks) ==> cbOK(b.CanonicalBlocks[j])
+//@ ensures errs == nil ==> forall j, k int :: 0 <= j && j < k && k < len(b.CanonicalBlocks) ==> b.CanonicalBlocks[j].BlockNumber != b.CanonicalBlocks[k].BlockNumber @thorough
+//@ ensures errs == nil ==> forall j, k int :: 0 <= j && j < k && k < len(b.CanonicalBlocks) ==> b.CanonicalBlocks[j].Value.BlockTypeCode() != b.CanonicalBlocks[k].Value.BlockTypeCode() @thorough
+//@ ensures errs == nil ==> b.CanonicalBlocks[len(b.CanonicalBlocks)-1].Value.BlockTypeCode() == 1
+//@ ensures errs == nil && ((uint64(b.PrimaryBlock.BundleControlFlags) & 0x02) != 0 || b.PrimaryBlock.SourceNode == DtnNone()) ==> forall j int :: 0 <= j && j < len(b.CanonicalBlocks) ==> (uint64(b.CanonicalBlocks[j].BlockControlFlags) & 0x02) == 0
+//@ ensures errs == nil && b.PrimaryBlock.CreationTimestamp[0] == 0 ==> exists j int :: 0 <= j && j < len(b.CanonicalBlocks) && b.CanonicalBlocks[j].Value.BlockTypeCode() == 7
+//@ loop forEachBlock.0 invariant 0 <= i && i <= len(b.CanonicalBlocks)
+//@ loop forEachBlock.0 invariant errs == nil ==> pbOK(b.PrimaryBlock) && forall j int :: 0 <= j && j < i ==> cbOK(b.CanonicalBlocks[j])
+//@ loop forEachBlock.0 decreases len(b.CanonicalBlocks) - i
+//@ loop 0 invariant 0 <= rangeindex + 1 && rangeindex + 1 <= len(b.CanonicalBlocks)
+//@ loop 0 invariant errs == nil ==> pbOK(b.PrimaryBlock) && forall j int :: 0 <= j && j < len(b.CanonicalBlocks) ==> cbOK(b.CanonicalBlocks[j])
+//@ loop 0 invariant errs == nil ==> forall j int :: 0 <= j && j < rangeindex + 1 ==> (uint64(b.CanonicalBlocks[j].BlockControlFlags) & 0x02) == 0
+//@ loop 1 invariant 0 <= rangeindex + 1 && rangeindex + 1 <= len(b.CanonicalBlocks) && cbBlockNumbers != nil && cbBlockTypes != nil
+//@ loop 1 invariant errs == nil ==> pbOK(b.PrimaryBlock) && forall j int :: 0 <= j && j < len(b.CanonicalBlocks) ==> cbOK(b.CanonicalBlocks[j])
+//@ loop 1 invariant errs == nil && ((uint64(b.PrimaryBlock.BundleControlFlags) & 0x02) != 0 || b.PrimaryBlock.SourceNode == DtnNone()) ==> forall j int :: 0 <= j && j < len(b.CanonicalBlocks) ==> (uint64(b.CanonicalBlocks[j].BlockControlFlags) & 0x02) == 0
+//@ loop 1 invariant errs == nil ==> forall j int :: 0 <= j && j < rangeindex + 1 ==> has(cbBlockNumbers, b.CanonicalBlocks[j].BlockNumber) && has(cbBlockTypes, b.CanonicalBlocks[j].Value.BlockTypeCode())
+//@ loop 1 invariant errs == nil ==> forall j, k int :: 0 <= j && j < k && k < rangeindex + 1 ==> b.CanonicalBlocks[j].BlockNumber != b.CanonicalBlocks[k].BlockNumber @thorough
+//@ loop 1 invariant errs == nil ==> forall j, k int :: 0 <= j && j < k && k < rangeindex + 1 ==> b.CanonicalBlocks[j].Value.BlockTypeCode() != b.CanonicalBlocks[k].Value.BlockTypeCode() @thorough
